@@ -173,10 +173,12 @@ def normalize_piece_length(piece_length: int) -> int:
         Piece length is improper value.
     """
     if isinstance(piece_length, str):
-        if piece_length.isascii() and piece_length.isdecimal():
-            piece_length = int(piece_length)
-        else:
+        if not (piece_length.isascii() and piece_length.isdecimal()):
             raise PieceLengthValueError(piece_length)
+        try:
+            piece_length = int(piece_length)
+        except ValueError as err:  # longer than the int conversion limit
+            raise PieceLengthValueError(piece_length) from err
 
     if not isinstance(piece_length, int):
         raise PieceLengthValueError(piece_length)
